@@ -24,6 +24,9 @@ def run(c):
     # exhaustively under C03/C09) replayed on the real loop, with the publish monitor of C09 counted for C01
     import loopx
     loopx.run_suite(c, 'C01', extra_props=('C09',), with_window=False, exhaustive=False)
+    # the same steps on DBIs of several hundred entries with values of very different lengths (pages split and
+    # records move while LS iterates and writes): content against the per-key last-writer-wins reference
+    vlib.absorb(c, vlib.run_harness(['bulk', 'C01'], timeout=600))
     c.assumptions += ['tomb sweeper disabled (property text)', 'shadow mode: one shared monotone clock; real stamps are compared up to order-isomorphism',
                       'native mode: per instance and key the application uses strictly increasing timestamps (DESIGN.md s.7)',
                       'shadow configurations model shadowToMain as the code is (empty application values are dropped, known finding F3 of C11)']
